@@ -377,7 +377,13 @@ package transport
 //@   modifies nothing
 //@ trusted newMultipartResponseAggregator(w, boundary, d) (a)
 //@   ensures a != nil
-//@ trusted (*multipartResponseAggregator).Done(w)
+// Done is verified, not trusted: it stops the ticker goroutine and flushes what is still pending - the flush that
+// writes the last payload and, with it, the closing boundary (C12) - to the writer it was given, exactly once
+//@ func (*multipartResponseAggregator).Done [C12,C13,C05]
+//@   requires a != nil
+//@   safe
+//@   at! `a.flush(w)` requires arg0 == w && calls(send) == 1
+//@   ensures !panicked ==> calls(flush) == 1 && calls(send) == 1
 //@ trusted (*multipartResponseAggregator).Add(resp, initial)
 //@ trusted (time.Duration).Milliseconds() (ms)
 //@   nopanic
@@ -868,6 +874,7 @@ package transport
 //@   pure
 //@ func (*multipartResponseAggregator).flush [C12,C13]
 //@   requires a != nil
+//@   assumenopanic its one explicit panic is for a writer that is no http.Flusher, which MultipartMixed.Do rules out before the aggregator exists
 //@   ghost held = false
 //@   ghost lastFinal = false
 //@   at `a.mu.Lock()` ghost held = true
